@@ -42,7 +42,7 @@ def run_history(fw, use_cache, ops):
             else:
                 ref = op.get("state")
                 code = "code%d" % ref if isinstance(ref, int) else "codeX"
-                (res, sent) = a.callback(op["sess"], op["prov"], ref, code, bool(op.get("provider_fails")))
+                (res, sent) = a.callback(op["sess"], op["prov"], ref, code, bool(op.get("provider_fails")), post=bool(op.get("post")))
                 a.provider.fail_next = False
                 if res[0] == "token":
                     outs.append(["exchanged", sent, "userinfo" in res[1]])
@@ -162,9 +162,18 @@ def gen_ops(rng, length):
                 ops.append({"op": "callback", "sess": sess, "prov": prov, "state": "garbage"})
         else:
             ops.append({"op": "tick", "dt": rng.choice([1, 3599, 3601])})
+        # a quarter of the callbacks arrive as a POST (response_mode=form_post): code and state in the body
+        if ops[-1]["op"] == "callback" and rng.random() < 0.25:
+            ops[-1]["post"] = True
     return ops
 
 
+GOLDEN_POST = [
+    ("post-replay", [{"op": "begin", "sess": 0, "prov": "pkce", "redirect": REDIRECTS[0]}, {"op": "callback", "sess": 0, "prov": "pkce", "state": 0, "post": True},
+                     {"op": "callback", "sess": 0, "prov": "pkce", "state": 0, "post": True}, {"op": "callback", "sess": 0, "prov": "pkce", "state": 0}]),
+    ("post-foreign-session", [{"op": "begin", "sess": 0, "prov": "oidc", "redirect": REDIRECTS[0]}, {"op": "callback", "sess": 1, "prov": "oidc", "state": 0, "post": True},
+                              {"op": "callback", "sess": 0, "prov": "oidc", "state": 0, "post": True}]),
+]
 GOLDEN = [
     ("own", [{"op": "begin", "sess": 0, "prov": "both", "redirect": REDIRECTS[0]}, {"op": "callback", "sess": 0, "prov": "both", "state": 0}]),
     ("replay", [{"op": "begin", "sess": 0, "prov": "pkce", "redirect": REDIRECTS[0]}, {"op": "callback", "sess": 0, "prov": "pkce", "state": 0},
@@ -207,7 +216,7 @@ def run(ctx):
     n = 25 if ctx.tier == "quick" else 250
     for fw in CA.ADAPTERS:
         for use_cache in (False, True):
-            for tag, ops in GOLDEN:
+            for tag, ops in GOLDEN + GOLDEN_POST:
                 check_history(ctx, fw, use_cache, ops, "golden:" + tag)
             for _ in range(n):
                 check_history(ctx, fw, use_cache, gen_ops(rng, rng.choice([4, 6, 8, 10])), "walk")
